@@ -339,7 +339,7 @@ def _run_kani(hs, tier="quick"):
     some = [h for h in hs if REG.KANI[h].get("covers") == "some"]
     # the largest batch takes about 3 minutes on the unchanged tree; a changed tree can make a harness blow up, which is then a tool
     # error (exit 2) after the limit rather than after 50 minutes
-    return K.run(REPO, hs, 16, timeout=1500 if tier == "quick" else 3000, some_covers=some)
+    return K.run(REPO, hs, 16, timeout=1500 if tier == "quick" else 7200, some_covers=some)
 
 
 def _write_evidence(pid, tier, seed, prop, wall, ob_total, ob_discharged, ob_bounded, ob_bounded_ok, samples, functions,
